@@ -15,6 +15,16 @@ def view(prog, key):
     return fv
 
 
+def view_deep(prog, key):
+    """FnView of `key` with directly called closures and Option/Result combinators expanded in place (analysis/inline.py)."""
+    fv = _fv_cache.get((id(prog), key, "deep"))
+    if fv is None:
+        from .inline import deep_splice
+        fv = FnView(prog, key, f=deep_splice(prog, prog.fn(key)))
+        _fv_cache[(id(prog), key, "deep")] = fv
+    return fv
+
+
 def crate_fns(prog, crate):
     """Bodies of a crate; helpers that are spliced into their callers (facts.Program.transparent) are not listed on their own."""
     pre = crate + "::"
